@@ -288,7 +288,8 @@ func (s scen) judge(e *sched.Exec) (string, string, *sched.Failure) {
 		switch {
 		case b == timeoutText:
 			class = "timeout"
-		case b == "" && inv.Status >= 400:
+		case b == "" && inv.Status >= 400 && id == "":
+			// failure status only: the invocation was never delivered to a runtime (the environment failed to come up)
 			class = "empty-failure"
 		case isPlatformError(inv.Body):
 			class = "platform-error"
